@@ -97,6 +97,62 @@ def run_scenario(chooser: Any, prog_name: str, alphabet: list[str], budget: int,
             "cut": sorted((cut_plan or {}).items())}
 
 
+def concurrent_case(write_at_ms: int, ack_delay_ms: int, data: str, alive: bool, read_tmo: float = 1.0
+                    ) -> dict[str, Any]:
+    """Two tasks of the caller share one connection: a read (op "bgread") is already blocked when another task
+    writes.  The gateway acknowledges after ack_delay_ms; `data`: a message for us is sent "before" / "after"
+    the acknowledgement or not at all.  H2 for the write and H1/H5 for the pending read."""
+    rec = Recorder()
+    fed_names: list[str] = []
+
+    async def main() -> None:
+        gw = Gateway(rec)
+        tr = await connect(rec, gw, uri(None))
+        loop = asyncio.get_running_loop()
+
+        def feed(name: str) -> None:
+            if gw.wire is not None and not gw.wire.writer.is_closing():
+                fed_names.append(name)
+                gw.feed_named(name)
+
+        def on_data(_f: Any) -> None:
+            if data == "before":
+                loop.call_later(max(ack_delay_ms - 20, 0) / 1000, feed, "DataUs")
+            loop.call_later(ack_delay_ms / 1000, feed, "Ack")
+            if data == "after":
+                loop.call_later((ack_delay_ms + 100) / 1000, feed, "DataUs")
+            if alive:
+                loop.call_later((ack_delay_ms + 10) / 1000, feed, "Alive")
+
+        gw.on_data_out = on_data
+
+        async def bg() -> str:
+            from harness.c07_hsfz import classify_exc
+            rec.add("Begin", op="bgread", tmo=int(round(read_tmo * 1000)), d=[])
+            res, d = "ok", []
+            try:
+                d = list(await tr.read(timeout=read_tmo))
+            except BaseException as e:  # noqa: BLE001
+                res = classify_exc(e)
+            rec.add("End", op="bgread", res=res, d=d)
+            return res
+
+        task = asyncio.ensure_future(bg())
+        await asyncio.sleep(write_at_ms / 1000)
+        await do_op(rec, tr, "write", 5.0, b"\x3e\x80")
+        await task
+        await drain_and_finish(rec, tr)
+
+    hang = False
+    try:
+        vloop.run(main(), horizon=600)
+    except (TimeoutError, vloop.BlockedForever):
+        hang = True
+        rec.ev.append({"e": "Final", "t": rec.ev[-1]["t"] if rec.ev else 0, "drained": False})
+    return {"cfg": cfg(1000), "ev": rec.ev, "prog": f"concurrent-read-write/{write_at_ms}/{ack_delay_ms}/{data}/{alive}",
+            "auto": False, "fed": fed_names, "hang": hang, "cut": []}
+
+
 MODEL_FRAME = {"ack": "Ack", "ackOther": "AckWrongData", "data": "DataUs", "dataOther": "DataOther", "alive": "Alive",
                "err": "Err40", "short": "ShortAck"}
 SCRIPTS = {"wrr": ["write", "read", "read"], "rwr": ["read", "write", "read"], "wwr": ["write", "write", "read"]}
@@ -205,7 +261,7 @@ def run(tier: str, seed: int) -> Report:
             rep.extra["design_actions_never_taken"] = never
             if never:
                 raise Machinery(f"HsfzConn: actions never taken in {c}: {never}")
-    res = tlc.run_tlc("MC_HsfzConn", "MC_HsfzConn_devS13.cfg", timeout=900)
+    res = tlc.run_tlc("MC_HsfzConn", "MC_HsfzConn_devS13.cfg", timeout=900, workers=1)
     rep.add_tlc(res, "MC_HsfzConn_devS13 (negative control)")
     if res.violated != "H1_InOrder":
         raise Machinery(f"negative control devS13 did not violate H1_InOrder (got {res.violated})")
@@ -243,6 +299,12 @@ def run(tier: str, seed: int) -> Report:
 
         for _vec, t in explore(runit3, 64):
             add(t, "enum-errwords")
+    # two tasks of the caller on one connection: a read is pending while another task writes
+    for write_at in (100, 500):
+        for ack_delay in (0, 1, 50, 300):
+            for data in ("none", "before", "after"):
+                for alive in (False, True):
+                    add(concurrent_case(write_at, ack_delay, data, alive), "concurrent-read-write")
     # spec -> code
     nsim = 120 if tier == "quick" else 1500
     ndrift = nrep = 0
